@@ -84,3 +84,30 @@ func FakeCommand(name string) string {
 	os.Setenv("PATH", dir+":"+os.Getenv("PATH"))
 	return out
 }
+
+// os.OpenFile for writing, as far as the engine models it (intrinsics os.OpenFile,
+// (*os.File).Write/WriteString/Close): creation, truncation, and sequential writes that land at the
+// end of the file (O_APPEND, or a file just truncated or created).
+func M_os_OpenFileCheck(name string, flag int) error {
+	const oCreate, oTrunc, oExcl = 0x40, 0x200, 0x80
+	_, exists := vfs[name]
+	if !exists && flag&oCreate == 0 {
+		return errNotExist
+	}
+	if exists && flag&oExcl != 0 && flag&oCreate != 0 {
+		return errors.New("file exists")
+	}
+	if !exists || flag&oTrunc != 0 {
+		vfs[name] = []byte{}
+	}
+	return nil
+}
+
+func M_os_FileAppend(name string, data []byte) int {
+	old := vfs[name]
+	cp := make([]byte, 0, len(old)+len(data))
+	cp = append(cp, old...)
+	cp = append(cp, data...)
+	vfs[name] = cp
+	return len(data)
+}
